@@ -30,7 +30,7 @@ from dashlive.server.manifests import DashManifest
 from dashlive.server.options.container import OptionsContainer
 from dashlive.server.options.types import OptionUsage
 from dashlive.utils import objects
-from dashlive.utils.date_time import scale_timedelta
+from dashlive.utils.date_time import from_isodatetime, scale_timedelta
 from dashlive.utils.json_object import JsonObject
 from dashlive.utils.lang import lang_is_equal
 from dashlive.utils.timezone import UTC
@@ -291,7 +291,7 @@ class ManifestContext:
             self.update_timing(timing)
 
         self.cgi_params = self.calculate_cgi_parameters(
-            audio=audio_adps, video=video)
+            audio=audio_adps, video=video, text=text_adps)
         video.append_cgi_params(self.cgi_params.video)
         for audio in audio_adps:
             audio.append_cgi_params(self.cgi_params.audio)
@@ -485,7 +485,8 @@ class ManifestContext:
     def calculate_cgi_parameters(
             self,
             audio: list[AdaptationSet],
-            video: AdaptationSet) -> CgiParameterCollection:
+            video: AdaptationSet,
+            text: list[AdaptationSet] | None = None) -> CgiParameterCollection:
         exclude = {'encrypted', 'mode'}
         options = self.options
 
@@ -520,8 +521,24 @@ class ManifestContext:
                     audio[0].representations[0])
                 aud_cgi_params['aerr'] = times
 
+        if options.textErrors and text:
+            if text[0].representations:
+                times = self.calculate_injected_error_segments(
+                    options.textErrors,
+                    self.now,
+                    options.availabilityStartTime,
+                    options.timeShiftBufferDepth,
+                    text[0].representations[0])
+                txt_cgi_params['terr'] = times
+
         if options.videoCorruption:
-            errs = [(None, tc) for tc in options.videoCorruption]
+            errs = []
+            for tc in options.videoCorruption:
+                # each item is either a segment number or a time
+                try:
+                    errs.append((None, int(tc, 10)))
+                except ValueError:
+                    errs.append((None, from_isodatetime(tc)))
             segs = self.calculate_injected_error_segments(
                 errs,
                 self.now,
@@ -564,7 +581,7 @@ class ManifestContext:
         for item in errors:
             code, pos = item
             if isinstance(pos, int):
-                drop_seg = int(pos, 10)
+                drop_seg = pos
             else:
                 tm = availabilityStartTime.replace(
                     hour=pos.hour, minute=pos.minute, second=pos.second)
